@@ -25,7 +25,7 @@ META = {
                     "a non-numeric MsgSeqNum is not named by the statement: only no-delivery and no-counter-advance are judged for it",
                     "what an initiator does with a too-high Logon reply is C04/C07's subject"],
 }
-REQUIRED_ORACLES = ["A:inbound-before-logon", "A:send-refused", "B:integrity", "B:wrong-beginstring", "C:silent-after-disconnect", "C:disconnect-once"]
+REQUIRED_ORACLES = ["D:logon-first", "A:inbound-before-logon", "A:send-refused", "B:integrity", "B:wrong-beginstring", "C:silent-after-disconnect", "C:disconnect-once"]
 NSHARDS = 16
 
 CLASSES = {
@@ -126,6 +126,15 @@ def all_cells():
             for second in ("app-disconnect", "app-disconnect-logout", "eof"):
                 for after in ("drain-raises", "drain-returns"):
                     cells.append(("C-reader-parked", role, first, second, after))
+    # D: a Logon as the first inbound message of a connection - the first connection of the object or a later one (the object keeps
+    # whatever the earlier connection left behind: role, TestReqID, buffers): ACTIVE / on_logon / accepted application sends only
+    # once BOTH Logons of this connection are on the wire (the peer's was read, our own was written)
+    for kind in ("server", "generic", "client"):
+        for prior in ("fresh", "after-own-logout-first", "after-refusing-a-logon", "after-session-eof", "after-session-logout"):
+            if kind == "client" and prior != "fresh":
+                continue      # (a client re-connects by itself and sends its own Logon from on_connect: the initiator cells cover it)
+            for probe in ("logon", "logon+send", "app-first"):
+                cells.append(("D-logon-first", kind, prior, probe))
     # C: other disconnect causes, then continuation
     for role in ("acceptor", "initiator"):
         for st in ("active", "awaiting"):
@@ -259,6 +268,92 @@ async def cell_A_in(acc, clock, cell, cid):
     if n.disc != 1:
         return acc.violation(f"{tag}:on_disconnect-count", f"on_disconnect called {n.disc} times", w, cid)
     await continuation(acc, clock, ep, j, peer, cid, w, f"A-in/{cls}")
+
+
+async def cell_D_logon_first(acc, clock, cell, cid):
+    from asyncfix import FIXMessage, Journaler
+    from asyncfix.connection import ConnectionState as CS
+    from asyncfix.errors import FIXConnectionError
+    from vf.sim import endpoint as E
+    from vf.sim.net import settle, advance
+    _, kind, prior, probe = cell
+    j = Journaler()
+    ep = E.new_endpoint(kind, "ME", "PEER", j, hb=30, name="ME")
+    peer = E.Peer("PEER", "ME")
+    if prior != "fresh":
+        E.attach(ep, clock)
+        E.start_reader(ep)
+        try:
+            if prior == "after-own-logout-first":
+                await ep.disconnect(CS.DISCONNECTED_WCONN_TODAY, logout_message="not today")
+            elif prior == "after-refusing-a-logon":
+                ep.vf_reader.feed(mkframe("A", 1, "STRANGER", "ME", [(98, 0), (108, 30)]))
+            else:
+                ep.vf_reader.feed(peer.logon(hb=30))
+                await settle()
+                if ep.connection_state != CS.ACTIVE:
+                    acc.add("start_state_not_reached")
+                    return
+                ep.vf_reader.feed(peer.frame("D", None, [(11, "first-connection")]))
+                await settle()
+                if prior == "after-session-eof":
+                    ep.vf_reader.feed_eof()
+                else:
+                    ep.vf_reader.feed(peer.frame("5", None, [(58, "bye")]))
+            await settle()
+        except Exception as e:
+            return acc.violation(f"D:prior-raised:{type(e).__name__}", f"{prior}: {e!r}", {"cell": cell}, cid)
+        if ep.connection_state > CS.DISCONNECTED_BROKEN_CONN:
+            acc.add("start_state_not_reached")
+            return
+        # the second connection of the same object
+        E.attach(ep, clock)
+        if ep.vf_read_task.done():
+            E.start_reader(ep)
+        else:
+            await advance(1.1)
+    else:
+        E.attach(ep, clock)
+        E.start_reader(ep)
+    peer.next_out = ep._session.next_num_in
+    o = Obs(ep, j)
+    acc.oracle("D:logon-first")
+    acc.add("logons_as_first_inbound_message" + ("_of_a_second_connection" if prior != "fresh" else ""))
+    if probe == "app-first":
+        ep.vf_reader.feed(peer.frame("D", None, [(11, "too-early")]))
+    else:
+        ep.vf_reader.feed(peer.logon(hb=30))
+    await settle()
+    sent = None
+    if probe == "logon+send":
+        try:
+            await ep.send_msg(FIXMessage("D", {11: "mine", 55: "X"}))
+            sent = "accepted"
+        except FIXConnectionError:
+            sent = "refused"
+        except Exception as e:
+            sent = f"raised {e!r}"
+        await settle()
+    n = Obs(ep, j)
+    new = [fixwire.get(f, 35) for f in parse_new(ep, o.tap)]
+    w = {"cell": cell, "events": ep.ev[o.ev:], "tap": new, "state": n.state.name, "role": ep.connection_role.name, "send": sent, "swallowed": ep.vf_log.exceptions[-2:]}
+    tag = f"D:{'second' if prior != 'fresh' else 'first'}-connection"
+    if probe == "app-first":
+        if n.rx != o.rx or n.state == CS.ACTIVE or [x for x in new if x != "5"] or n.state > CS.DISCONNECTED_BROKEN_CONN:
+            return acc.violation(f"{tag}:first-message-not-logon-not-dropped", f"{prior}: an application message first: delivered={n.rx != o.rx} state={n.state.name} written={new}", w, cid)
+        return
+    went_active = n.state >= CS.ACTIVE or any(e[0] == "logon" for e in ep.ev[o.ev:]) or any(e == ("state", "ACTIVE") for e in ep.ev[o.ev:])
+    own_logon_first = bool(new) and new[0] == "A"
+    if went_active and not own_logon_first:
+        return acc.violation(f"{tag}:active-without-own-logon", f"{prior}: ACTIVE / on_logon although this side wrote {new} (no Logon first): the exchange has not completed", w, cid)
+    if sent == "accepted" and not own_logon_first:
+        return acc.violation(f"{tag}:send-accepted-without-logon-exchange", f"{prior}: application send accepted, frames written {new}", w, cid)
+    if sent is not None and sent.startswith("raised"):
+        return acc.violation(f"{tag}:send-raised", f"{prior}: {sent}", w, cid)
+    if not went_active and n.state > CS.DISCONNECTED_BROKEN_CONN and n.state != CS.LOGON_INITIAL_RECV:
+        return acc.violation(f"{tag}:neither-active-nor-dropped", f"{prior}: state {n.state.name} after a valid Logon, written {new}", w, cid)
+    if went_active and kind != "client" and new.count("A") != 1:
+        return acc.violation(f"{tag}:logon-reply-count", f"{prior}: {new.count('A')} Logon frames written", w, cid)
 
 
 async def cell_A_badlogon(acc, clock, cell, cid):
@@ -845,6 +940,8 @@ def run_shard(spec, acc):
                     await cell_A_send(acc, clock, cell, cid)
                 elif cell[0] == "A-send-in-logon":
                     await cell_A_send_in_logon(acc, clock, cell, cid)
+                elif cell[0] == "D-logon-first":
+                    await cell_D_logon_first(acc, clock, cell, cid)
                 elif cell[0] == "C-reader-parked":
                     await cell_C_reader_parked(acc, clock, cell, cid)
                 elif cell[0] == "C-overlap":
